@@ -4,6 +4,8 @@ coq/Proofs/FloatExact.v proves the float model equal to the integer model).
 
   triangle_orientation, segments_intersect_1d, segments_intersect      (called by C01)
   segment_intersects_point, point_intersects_polygon                   (called by C02)
+  the wrappers Point / PointArray._intersects_polygon (fpolygon_intersects: no finite value in
+  the polygon's buffer => False), on real Polygon scalars                (called by C02)
   compute_area                                                         (on request: kernels=['area'])
 
 The real kernels are called directly (spatialpandas.geometry._algorithms.*), the model is
@@ -38,14 +40,15 @@ IMPORTS = 'Model.Num Model.FloatKernels'
 NAN, INF = float('nan'), float('inf')
 NONFINITE = [NAN, INF, -INF]
 
-KERNELS_OF = {'C01': ['orient', 'si1d', 'si'], 'C02': ['sip', 'pip']}
+KERNELS_OF = {'C01': ['orient', 'si1d', 'si'], 'C02': ['sip', 'pip', 'pipw']}
 SIG = {'orient': 'triangle_orientation', 'si1d': 'segments_intersect_1d', 'si': 'segments_intersect',
-       'sip': 'segment_intersects_point', 'pip': 'point_intersects_polygon', 'area': 'compute_area'}
+       'sip': 'segment_intersects_point', 'pip': 'point_intersects_polygon', 'area': 'compute_area',
+       'pipw': 'PointArray._intersects_polygon'}
 ARITY = {'orient': 6, 'si1d': 4, 'si': 8, 'sip': 6}
 RUN_FN = {'orient': 'run_orient', 'si1d': 'run_si1d', 'si': 'run_si', 'sip': 'run_sip',
-          'pip': 'run_pip', 'area': 'run_area'}
+          'pip': 'run_pip', 'area': 'run_area', 'pipw': 'run_pipw'}
 RES_TY = {'orient': 'list Z', 'si1d': 'list bool', 'si': 'list bool', 'sip': 'list bool',
-          'pip': 'list bool', 'area': 'list (Z * Z * Z)'}
+          'pip': 'list bool', 'area': 'list (Z * Z * Z)', 'pipw': 'list bool'}
 CHUNK = 64          # scalar-kernel inputs per Coq case
 MAXV = 3            # violations reported per kernel
 
@@ -56,7 +59,8 @@ def _ftuple(n):
 
 CASE_TY = {'orient': f'list ({_ftuple(6)})', 'si1d': f'list ({_ftuple(4)})', 'si': f'list ({_ftuple(8)})',
            'sip': f'list ({_ftuple(6)})', 'pip': 'list float * list nat * list (float * float)',
-           'area': 'list (list float * list nat)'}
+           'area': 'list (list float * list nat)',
+           'pipw': 'list float * list nat * list (float * float)'}
 
 
 # --------------------------------------------------------------------------
@@ -522,20 +526,89 @@ def run_pip(rep, f, n):
     return _job('pip', cases, res, lambda bad: explain_pip(rep, polys, cases, res, bad))
 
 
-def explain_pip(rep, polys, cases, res, bad):
+def explain_pip(rep, polys, cases, res, bad, kern='pip'):
     for b in bad[:MAXV]:
         vals, offs, pts = polys[b]
-        txt = C.coq_eval(IMPORTS, f'run_pip {C.coq(cases[b])}')
+        txt = C.coq_eval(IMPORTS, f'{RUN_FN[kern]} {C.coq(cases[b])}')
         model = [x == 'true' for x in _coq_list(txt)]
         where = [i for i, (g, m) in enumerate(zip(res[b], model)) if g != m]
         i = where[0] if where else 0
-        rep.violation('float-kernel-differs:point_intersects_polygon',
-                      f'point_intersects_polygon({pts[i][0]!r}, {pts[i][1]!r}, {vals!r}, {offs!r}) returns '
+        rep.violation(f'float-kernel-differs:{SIG[kern]}',
+                      f'{SIG[kern]} for the point ({pts[i][0]!r}, {pts[i][1]!r}) and the polygon buffers '
+                      f'{vals!r}, {offs!r} returns '
                       f'{res[b][i]!r}; the binary64 model (Model/FloatKernels.v) returns '
                       f'{model[i] if i < len(model) else None!r}',
-                      {'float_kernel': 'pip', 'values': hexes(vals), 'offsets': offs,
+                      {'float_kernel': kern, 'values': hexes(vals), 'offsets': offs,
                        'points': [hexes(p) for p in ([pts[j] for j in where] or pts)],
                        'values_repr': [repr(v) for v in vals]})
+
+
+def gen_wrapped_polygon(rng):
+    """(rings, points) for a real Polygon scalar: rings of one coordinate mode; one polygon in
+    three has NO finite coordinate (all infinite, all NaN, or NaN / +inf / -inf mixed), the
+    case the wrappers answer without calling the kernel"""
+    empty = rng.random() < 0.34
+    mode = rng.choice(('int', 'half', 'dgrid', 'rnd', 'mixed', 'huge'))
+    nf = rng.choice(([INF, -INF], [NAN], NONFINITE, NONFINITE))
+
+    def coord():
+        if empty:
+            return rng.choice(nf)
+        if mode == 'mixed':
+            return pick(rng, rng.choice(('int', 'special', 'half', 'special')))
+        return pick(rng, mode)
+    rings = []
+    for _ in range(rng.choice((1, 1, 2, 3))):
+        nv = rng.choice((0, 3, 3, 4, 5))
+        ring = [(coord(), coord()) for _ in range(nv)]
+        if nv >= 3 and rng.random() < 0.8:
+            ring.append(ring[0])
+        rings.append([c for v in ring for c in v])
+    if empty and rng.random() < 0.3 and rings[0]:
+        # the classic: (-inf,-inf) (inf,-inf) (inf,inf) (-inf,-inf), "holding" every finite point
+        rings[0] = [-INF, -INF, INF, -INF, INF, INF, -INF, -INF]
+    pts = [(pick(rng, 'int'), pick(rng, 'int')) for _ in range(6)] + \
+        [(pick(rng, 'half'), pick(rng, 'rnd')) for _ in range(4)] + \
+        [(pick(rng, 'special'), pick(rng, 'int')), (pick(rng, 'int'), pick(rng, 'special'))] + \
+        rng.sample([(a, b) for a in NONFINITE for b in NONFINITE], 2)
+    return rings, pts
+
+
+def run_pipw(rep, n):
+    """the wrappers of the kernel on real objects: PointArray.intersects(polygon) (array form and
+    positions form) and Point.intersects(polygon) against Model/FloatKernels.v
+    fpolygon_intersects on polygon.buffer_values / buffer_inner_offsets"""
+    from spatialpandas.geometry import PointArray, PolygonArray
+    polys, cases, res = [], [], []
+    for _ in range(n):
+        rings, pts = gen_wrapped_polygon(rep.rng)
+        try:
+            poly = PolygonArray([rings], dtype='float64')[0]
+            vals = [float(v) for v in poly.buffer_values]
+            offs = [int(o) for o in poly.buffer_inner_offsets]
+        except Exception:  # noqa: BLE001  (a layout the constructor refuses, or renamed attributes)
+            rep.count('internal-unavailable:polygon-scalar-buffers')
+            continue
+        pa = PointArray(np.array(pts, dtype='float64'))
+        got = [bool(b) for b in pa.intersects(poly)]
+        k = rep.rng.sample(range(len(pts)), 4)
+        got_inds = [bool(b) for b in pa.intersects(poly, np.array(k, dtype='int32'))]
+        got_sc = [bool(pa[i].intersects(poly)) for i in k]
+        if got_inds != [got[i] for i in k] or got_sc != [got[i] for i in k]:
+            rep.violation('float-wrapper-forms-differ:polygon',
+                          f'PointArray.intersects(polygon) {[got[i] for i in k]}, the positions form '
+                          f'{got_inds} and Point.intersects {got_sc} differ on rings {rings!r}',
+                          {'float_kernel': 'pipw', 'values': hexes(vals), 'offsets': offs,
+                           'points': [hexes(pts[i]) for i in k], 'rings': [hexes(r) for r in rings]})
+        polys.append((vals, offs, pts))
+        cases.append(pip_case(vals, offs, pts))
+        res.append(got)
+        empty = not any(math.isfinite(v) for v in vals)
+        rep.count('float:pipw:polygon-without-finite-coordinate' if empty else 'float:pipw:polygon-with-finite-coordinate')
+        rep.count('float:pipw:result=True', sum(got))
+        rep.count('float:pipw:result=False', len(got) - sum(got))
+    rep.count('float:pipw:inputs', sum(len(p[2]) for p in polys))
+    return _job('pipw', cases, res, lambda bad: explain_pip(rep, polys, cases, res, bad, kern='pipw'))
 
 
 def run_area(rep, f, n):
@@ -584,6 +657,8 @@ def run_float_kernels(rep, kernels_wanted=None):
             jobs.append(run_scalar_kernel(rep, kern, K[kern], n))
         elif kern == 'pip':
             jobs.append(run_pip(rep, K['pip'], 500 * scale))
+        elif kern == 'pipw':
+            jobs.append(run_pipw(rep, 300 * scale))
         elif kern == 'area':
             jobs.append(run_area(rep, K['area'], 800 * scale))
 
@@ -625,6 +700,23 @@ def replay(rep, rp):
         model = [x == 'true' for x in _coq_list(txt)]
         print(f'point_intersects_polygon on {vals!r} {offs!r} at {pts!r}: implementation {got}, model {model}')
         return got == model
+    if kern == 'pipw':
+        from spatialpandas.geometry import PointArray, PolygonArray
+        rings = [unhex(r) for r in rp['rings']] if 'rings' in rp else None
+        vals, offs = unhex(rp['values']), [int(o) for o in rp['offsets']]
+        if rings is None:       # the rings are the slices of the buffer
+            rings = [vals[a:b] for a, b in zip(offs, offs[1:])]
+        pts = [tuple(unhex(p)) for p in rp['points']]
+        poly = PolygonArray([rings], dtype='float64')[0]
+        pa = PointArray(np.array(pts, dtype='float64'))
+        got = [bool(b) for b in pa.intersects(poly)]
+        got_sc = [bool(pa[i].intersects(poly)) for i in range(len(pts))]
+        vals2 = [float(v) for v in poly.buffer_values]
+        offs2 = [int(o) for o in poly.buffer_inner_offsets]
+        txt = C.coq_eval(IMPORTS, f'run_pipw {C.coq(pip_case(vals2, offs2, pts))}')
+        model = [x == 'true' for x in _coq_list(txt)]
+        print(f'polygon rings {rings!r} at {pts!r}: array form {got}, scalar form {got_sc}, model {model}')
+        return got == model and got_sc == model
     if kern == 'area':
         vals, offs = unhex(rp['values']), [int(o) for o in rp['offsets']]
         g = impl_area(K['area'], vals, offs)
